@@ -583,10 +583,17 @@ namespace chaiscript {
 
       /// Registers a new named type
       void add(const Type_Info &ti, const std::string &name) {
-        add_global_const(const_var(ti), name + "_type");
+        // the global "<name>_type" and the entry in the type table are registered under one lock:
+        // a get_state()/set_state() of another thread must not fall between the two
+        const auto global_name = name + "_type";
 
         chaiscript::detail::threading::unique_lock<chaiscript::detail::threading::shared_mutex> l(m_mutex);
 
+        if (m_state.m_global_objects.find(global_name) != m_state.m_global_objects.end()) {
+          throw chaiscript::exception::name_conflict_error(global_name);
+        }
+
+        m_state.m_global_objects.insert(std::make_pair(global_name, const_var(ti)));
         m_state.m_types.insert(std::make_pair(name, ti));
       }
 
